@@ -114,3 +114,35 @@ func Tuples(dims []int, f func(ix []int)) int64 {
 		}
 	}
 }
+
+// Long calls f for inputs built from a core string surrounded by padding of every length 0..maxPad: the
+// enumeration over short strings cannot see behaviour that depends on length (buffers, truncation, windows)
+// or on byte alignment after multi-byte characters, so these layers enumerate the length exhaustively instead.
+// pads are the padding units (ASCII and multi-byte), cores the structural payloads.
+func Long(pads, cores []string, maxPad int, f func(s string)) int64 {
+	type job struct {
+		pad  string
+		core string
+	}
+	var jobs []job
+	for _, p := range pads {
+		for _, c := range cores {
+			jobs = append(jobs, job{p, c})
+		}
+	}
+	var n int64
+	core.ParallelFor(len(jobs), func(i int) {
+		j := jobs[i]
+		var cnt int64
+		pad := ""
+		for k := 0; k <= maxPad; k++ {
+			f(pad + j.core)
+			f(j.core + pad)
+			f(pad + j.core + pad)
+			cnt += 3
+			pad += j.pad
+		}
+		atomic.AddInt64(&n, cnt)
+	})
+	return n
+}
